@@ -11,6 +11,9 @@ MCGood3 == { T("idm", {"idm"}), T("idb", {"idb"}), T("fm1", {"fm1"}), T("fm2", {
              T("au", {"ida", "idu"}), T("sr1", {"ids@1"}), T("sr2", {"ids@2"}), T("ibf", {"ibf"}),
              T("lnk", {"lnk"}),
              T("lo", {"lom"}), T("lo1", {"los@1"}), T("lo2", {"los@2"}) }      \* (its import can be satisfied from the directory of ibf's file, once that has been read)
+\* six operations over the identity / submodule-revision part of the third catalogue (thorough tier; all of it runs at five)
+MCGood3Six == { T("idm", {"idm"}), T("idb", {"idb"}), T("au", {"ida", "idu"}), T("sr1", {"ids@1"}), T("sr2", {"ids@2"}),
+                T("lo", {"lom"}), T("lo1", {"los@1"}), T("lo2", {"los@2"}) }
 \* two revisions of a module and two revisions of its importer, each importer revision pinned to its own revision (C05)
 MCGoodRev == { T("bb-r1", {"bb@1"}), T("bb-r2", {"bb@2"}), T("ab-r1", {"ab@1"}), T("ab-r2", {"ab@2"}) }
 MCBad3 == { "x-file-syntax" }
